@@ -93,6 +93,8 @@ static void child_main(Engine * eng, const Json & plan, bool verbose, int wfd, i
 	dup2(efd, 2);
 	int dn = open("/dev/null", O_WRONLY);
 	if (dn >= 0) dup2(dn, 1);
+	int dn0 = open("/dev/null", O_RDONLY);      // nothing a run does may block on the real stdin
+	if (dn0 >= 0) dup2(dn0, 0);
 	std::vector<uint8_t> edges(g_nguards + 2, 0);
 	g_edges = &edges;
 	g_log = EventLog();
